@@ -227,6 +227,10 @@ pub fn conformance(ctx: &CheckCtx, fams: &[&str], assumptions: &[&str]) -> Check
         if *f == "mpsc" {
             items.push((*f, "mix", mode.clone()));
         }
+        // JoinHandles polled by one task and awaited by another
+        if *f == "async" {
+            items.push((*f, "handover", mode.clone()));
+        }
         // task ids above the runtime's inline capacity of 16
         if *f == "sem" {
             items.push((*f, "highids", mode.clone()));
